@@ -103,6 +103,7 @@ pub struct XTable {
 }
 
 #[derive(Debug, Clone, Serialize, Deserialize, PartialEq, Default)]
+#[serde(default)]
 pub struct XSheet {
     pub name: String,
     /// 0 no attribute, 1 "visible", 2 "hidden", 3 "veryHidden"
@@ -118,6 +119,7 @@ pub struct XSheet {
 }
 
 #[derive(Debug, Clone, Serialize, Deserialize, PartialEq, Default)]
+#[serde(default)]
 pub struct XStyles {
     /// (numFmtId, formatCode, class 0 other / 1 date-time / 2 elapsed) — class recorded by the generator
     pub num_fmts: Vec<(u32, String, u8)>,
@@ -144,6 +146,7 @@ pub enum SstExtra {
 }
 
 #[derive(Debug, Clone, Serialize, Deserialize, PartialEq, Default)]
+#[serde(default)]
 pub struct SstKnobs {
     /// unused items placed before the used ones
     pub prepend: Vec<SstExtra>,
@@ -156,6 +159,7 @@ pub struct SstKnobs {
 }
 
 #[derive(Debug, Clone, Serialize, Deserialize, PartialEq, Default)]
+#[serde(default)]
 pub struct XEnc {
     pub prefix_workbook: bool,
     pub prefix_sheet: bool,
@@ -175,6 +179,7 @@ pub struct XEnc {
 }
 
 #[derive(Debug, Clone, Serialize, Deserialize, PartialEq, Default)]
+#[serde(default)]
 pub struct XlsxDoc {
     pub sheets: Vec<XSheet>,
     pub styles: Option<XStyles>,
